@@ -28,7 +28,7 @@ def bounds():
 def gen_script(r, tier, idx):
     from vlib.man import Phase
 
-    kind = r.choice(["reset-in-connect", "reset-in-connect", "blackout-connected", "lossy", "rferr", "blackout-at-start", "mixed", "reset-anytime", "set-info", "interface-down", "rferr-long", "not-found-then-reset", "reset-at-step", "reset-at-step", "blackout-near-tick"])
+    kind = r.choice(["reset-in-connect", "reset-in-connect", "blackout-connected", "lossy", "rferr", "blackout-at-start", "mixed", "reset-anytime", "set-info", "interface-down", "rferr-long", "not-found-then-reset", "reset-at-step", "reset-at-step", "blackout-near-tick", "many-resets", "lossy-connect-then-long-blackout"])
     phases, actions = [], []
     if kind == "reset-in-connect":
         # a reset at a 100 ms step of the first connection attempt
@@ -41,6 +41,19 @@ def gen_script(r, tier, idx):
         k = (idx % 330) if tier == "thorough" else r.randrange(0, 330)
         actions = [(("step", k), r.choice(["reset", "reset", "set-info"]))]
         phases = [Phase("healthy", 8)]
+    elif kind == "many-resets":
+        # a long series of resets, each in the middle of the connection attempt the previous one caused:
+        # the time to recover after the last one must not depend on how many came before
+        # (each reset is triggered by the CONNECTION_STARTED event of the attempt it is to hit)
+        actions = [(("on-connect", r.choice([14, 18, 24])), "reset")]
+        phases = [Phase("healthy", 5)]
+    elif kind == "lossy-connect-then-long-blackout":
+        # active profile: a connection made over a very lossy link (pings go unanswered for longer than
+        # the not-responding timeout while still connecting), then a healthy spell, then an outage longer
+        # than the reporting bound
+        # (the lossy connection is a RE-connection, made while the previous facade's active profile -
+        # 10 s not-responding timeout - is still installed)
+        phases = [Phase("healthy", 20), Phase("blackout", r.choice([25, 40])), Phase("lossy", r.choice([40, 70]), r.choice([0.55, 0.7])), Phase("healthy", r.choice([20, 40])), Phase("blackout", 560)]
     elif kind == "blackout-near-tick":
         # active timing profile (forced pump-running snapshot): the outage begins just before the
         # periodic refresh / facade update, whose retrying requests then hold the protocol lock
@@ -78,7 +91,7 @@ def gen_script(r, tier, idx):
     else:
         phases = [Phase("healthy", 20)]
         actions = [(r.uniform(0, 20), "set-info")]
-    return kind, phases, (actions if kind == "reset-at-step" else sorted(actions))
+    return kind, phases, (actions if kind in ("reset-at-step", "many-resets") else sorted(actions))
 
 
 def scenario(sh: Shard, seed, idx, tier):
@@ -92,7 +105,7 @@ def scenario(sh: Shard, seed, idx, tier):
     B_up, B_down = bounds()
     label = f"{seed}:{idx}:{kind}"
     snapshot = r.choice(["default.snapshot", "inYT-Pump1Hi-2020-12-13 11_19_35.snapshot", "inYT-all off-2020-10-23 18_00_45.snapshot"])
-    if kind == "blackout-near-tick":
+    if kind in ("blackout-near-tick", "lossy-connect-then-long-blackout"):
         snapshot = "inYT-Pump1Hi-2020-12-13 11_19_35.snapshot"
     mw = ManWorld(r, regime, suspend=suspend, snapshot=snapshot, max_iter=20_000_000, wall_cap=900)
     out = {}
@@ -108,7 +121,30 @@ def scenario(sh: Shard, seed, idx, tier):
                 t0 = mw.w.now
                 pending = list(actions)
                 users = []
-                if pending and isinstance(pending[0][0], tuple):
+                if pending and isinstance(pending[0][0], tuple) and pending[0][0][0] == "on-connect":
+                    (_, n_), act_ = pending.pop(0)
+                    left = {"n": n_}
+                    gate = mw.w.loop.create_future()
+
+                    def on_ev(man_, name):
+                        if name == "CONNECTION_STARTED":
+                            if left["n"] > 0:
+                                left["n"] -= 1
+
+                                def hit():
+                                    users.append(asyncio.ensure_future(man.async_reset()))
+                                    out.setdefault("user_action_times", []).append(mw.w.now)
+                                    sh.count("user_actions")
+                                    sh.count("resets_in_the_middle_of_the_attempt_they_caused")
+
+                                mw.w.loop.call_later(r.choice([0.15, 0.3, 0.6]), hit)
+                            elif not gate.done():
+                                gate.set_result(True)
+
+                    mw.on_event = on_ev
+                    await asyncio.wait({gate}, timeout=n_ * 20 + 60)
+                    mw.on_event = None
+                elif pending and isinstance(pending[0][0], tuple):
                     (_, k_), act_ = pending.pop(0)
                     lp = mw.w.loop
 
@@ -131,6 +167,7 @@ def scenario(sh: Shard, seed, idx, tier):
                         while pending and pending[0][0] <= mw.w.now - t0:
                             _, act = pending.pop(0)
                             users.append(asyncio.ensure_future(man.async_reset() if act == "reset" else man.async_set_spa_info(mw.kw["spa_address"], mw.kw["spa_identifier"], mw.kw["spa_name"])))
+                            out.setdefault("user_action_times", []).append(mw.w.now)
                             sh.count("user_actions")
                         await asyncio.sleep(0.05)
                 mw.set_phase(Phase("healthy", 0))
@@ -142,6 +179,7 @@ def scenario(sh: Shard, seed, idx, tier):
                     if at > mw.w.now - t0:
                         await asyncio.sleep(at - (mw.w.now - t0))
                     users.append(asyncio.ensure_future(man.async_reset() if act == "reset" else man.async_set_spa_info(mw.kw["spa_address"], mw.kw["spa_identifier"], mw.kw["spa_name"])))
+                    out.setdefault("user_action_times", []).append(mw.w.now)
                     H = mw.w.now
                 out["H"] = H
                 # bounded progress: CONNECTED with a live facade that mirrors the spa.  A connection
@@ -209,7 +247,9 @@ def scenario(sh: Shard, seed, idx, tier):
         elif out["t_connected"] is None:
             fs = out["final_state"]
             t_nf = max((e["t"] for e in ev if e["event"] == "SPA_NOT_FOUND"), default=0.0)
-            user_reset_when_healthy = any(x["t0"] >= t_nf and x["api"] == "async_reset" and str(x.get("task", "")).startswith("Task-") and mw.healthy_since <= x["t0"] < out.get("t_final", 0) - 1.0 and x.get("t1") is not None for x in api)
+            # a user action (reset, or re-entering the spa details) made on a healthy network after the
+            # terminal state was reached lifts it
+            user_reset_when_healthy = any(t_ >= t_nf and mw.healthy_since <= t_ < out.get("t_final", 0) - 1.0 for t_ in out.get("user_action_times", []))
             # the known terminal state needs the discovery windows to have been hit by the fault script
             starts = [e["t"] for e in ev if e["event"] == "LOCATING_STARTED" and e["t"] < t_nf]
             w0 = starts[-2] if len(starts) >= 2 else (starts[-1] if starts else 0.0)
@@ -281,7 +321,7 @@ def main(tier, seed):
     run.extra["bounds_virtual_seconds"] = {"B_up": up, "B_down": down}
     run.need(run.counters.get("recoveries", 0) > 60, "too few recoveries observed")
     run.need(run.counters.get("long_outages_from_connected", 0) >= 1 or tier == "quick", "no long outage from CONNECTED")
-    for k in ("reset-in-connect", "blackout-connected", "lossy", "rferr", "blackout-at-start", "mixed", "interface-down", "rferr-long", "not-found-then-reset", "reset-at-step", "blackout-near-tick"):
+    for k in ("reset-in-connect", "blackout-connected", "lossy", "rferr", "blackout-at-start", "mixed", "interface-down", "rferr-long", "not-found-then-reset", "reset-at-step", "blackout-near-tick", "many-resets", "lossy-connect-then-long-blackout"):
         run.need(k in run.sets.get("script_kinds", set()), f"script kind {k} not exercised")
     return run.finish(
         rule="fault scripts (reset / set-spa-info at a 100 ms step of the first connection attempt - thorough: every step 0..5.9 s -, blackout while connected from 0.5 to 400 s, lossy 20-90 %, RF-error periods (up to 3600 s: past the too-many-RF-errors escalation), interface-down periods (every send fails with an OS error reported through error_received), blackout at start, mixed phase sequences with resets) followed by a healthy network, silent spa-side changes during outages, handlers none/tick/seconds, regimes B/J; one evaluation = one script; distinct = distinct scripts",
